@@ -80,6 +80,7 @@ type c13In struct {
 	PreClient bool        `json:"pre_client,omitempty"`
 	NilHeader bool        `json:"nil_header,omitempty"` // resp: the round tripper returns a nil header map (only without headers)
 	ReadChunk int         `json:"read_chunk,omitempty"` // resp: 0 the body is read with io.ReadAll; k > 0: with Read calls on a k-byte buffer
+	Debug     bool        `json:"debug,omitempty"`      // resp, seq: the Runtime's Debug option is on (requests and responses are dumped to a logger that discards them)
 	ViaCons   bool        `json:"via_cons,omitempty"`   // resp: the reader hands Body() to the consumer it was given (as generated readers do); the consumer keeps what it receives
 	// route
 	OpCfg    *c13Client `json:"op_cfg,omitempty"` // nil: no operation client
@@ -179,6 +180,7 @@ func (c13) Rule() string {
 		"operation-level vs transport-level client and context; route cases: operation client absent / with / without a Transport of its own x runtime client lazily built or preset, each marked by redirect policy, cookie jar, timeout, against a redirecting (optionally slow) stub; " +
 		"context cases: operation context and runtime context each absent / plain / with a deadline earlier or later than the other's / cancelled beforehand, with and without a request timeout, the operation's or the runtime's context cancelled while the round tripper holds the request (observed: whose value and which deadline arrive, whether the request context ends, whether Submit fails); " +
 		"sequences of calls on one Runtime whose readers keep the ClientResponse and ask it again after later calls; plus concurrent cases: G goroutines x K calls on one fresh Runtime with correlation tokens, stub transport or a real httptest server, under the race detector. " +
+		"a quarter of the response and sequence cases with the Runtime's Debug option on; a third of the response cases with credential-bearing headers (Set-Cookie, WWW-Authenticate, Proxy-Authenticate, Authentication-Info, X-Auth-Token, X-Api-Key, Authorization, ...) of one to three lines, also enumerated x Debug off / on. " +
 		"Non-trivial: a response case whose registry has at least two entries, or any route, context, sequence or concurrent case."
 }
 
@@ -219,6 +221,19 @@ func c13ReadBody(r io.Reader, chunk int) []byte {
 }
 
 type c13CtxKey struct{}
+
+// c13NullLogger receives the debug dumps
+type c13NullLogger struct{}
+
+func (c13NullLogger) Printf(string, ...interface{}) {}
+func (c13NullLogger) Debugf(string, ...interface{}) {}
+
+// c13SetDebug switches the Runtime's Debug option (an option that only adds logging: nothing the reader sees may depend on it).
+// The exported field is assigned rather than SetDebug called, which also flips a package-level flag of the middleware package.
+func c13SetDebug(rt *client.Runtime, on bool) {
+	rt.SetLogger(c13NullLogger{})
+	rt.Debug = on
+}
 
 type c13Stub struct {
 	who   int
@@ -306,6 +321,7 @@ func (c13) Run(inAny any) any {
 	var used, ctxBy int32 = 9, 9
 	rt.Transport = &c13Stub{who: 1, in: &in, used: &used, ctxBy: &ctxBy}
 	rt.Context = nil
+	c13SetDebug(rt, in.Debug)
 	if in.RtCtx {
 		rt.Context = context.WithValue(context.Background(), c13CtxKey{}, "rt")
 	}
@@ -760,6 +776,7 @@ func c13ViewOf(resp runtime.ClientResponse) (v c13View) {
 func c13RunSeq(in c13In) c13Obs {
 	var obs c13Obs
 	rt := client.New("example.com", "/", []string{"http"})
+	c13SetDebug(rt, in.Debug)
 	rt.DefaultMediaType = string(in.Default)
 	rt.Producers[string(in.Default)] = runtime.JSONProducer()
 	cons := map[string]runtime.Consumer{}
@@ -1154,7 +1171,21 @@ func (c13) Category(inAny any, obsAny any) (string, bool) {
 	if in.OpClient {
 		who = "op-client"
 	}
-	return "resp/" + ct + "/" + reg + "/" + out + "/" + who + "/body:" + c13BodyClass([]byte(in.Body)), len(in.Registry) >= 2
+	opt := ""
+	if in.Debug {
+		opt = "/debug"
+	}
+	for _, h := range in.Headers {
+		sens := false
+		for _, k := range c13SensitiveKeys {
+			sens = sens || string(h.Key) == k
+		}
+		if sens {
+			opt += "/credential-header"
+			break
+		}
+	}
+	return "resp/" + ct + "/" + reg + "/" + out + "/" + who + opt + "/body:" + c13BodyClass([]byte(in.Body)), len(in.Registry) >= 2
 }
 
 // c13BodyClass names how the body sent by the server begins (the reader must see it byte for byte whatever that is).
@@ -1205,6 +1236,12 @@ var c13CTs = []string{
 var c13Defaults = []string{"application/json", "application/json", "text/plain", "application/x-default", "application/x-custom", "", "not a type;;", "application/vnd.api+json", "application/problem+xml"}
 var c13Codes = []int{200, 200, 201, 204, 206, 301, 304, 400, 401, 404, 418, 500, 503, 599}
 var c13HeaderKeys = []string{"X-Request-Id", "X-Rate-Limit", "Etag", "Set-Cookie", "Content-Length", "X-Multi"}
+
+// headers that carry credentials, challenges or other things an option (logging, tracing, caching) might want to hide or rewrite
+var c13SensitiveKeys = []string{"Set-Cookie", "Www-Authenticate", "Proxy-Authenticate", "Authentication-Info", "Proxy-Authentication-Info", "X-Auth-Token",
+	"X-Api-Key", "Authorization", "Proxy-Authorization", "Cookie", "X-Amz-Security-Token", "X-Csrf-Token", "Retry-After", "Cache-Control"}
+var c13SensitiveVals = []string{"session=abc123; Path=/; HttpOnly", "id=7; Secure", `Bearer realm="api", error="invalid_token"`, `Basic realm="x"`, "Negotiate",
+	`nextnonce="47364c23432d2e131a5fb210812c"`, "tok-0123456789", "k-SECRET", "Bearer abc.def.ghi", "https://example.com/next?token=t", "120", "no-store", ""}
 var c13QueryNames = []string{"x-request-id", "X-REQUEST-ID", "X-Request-Id", "etag", "ETag", "content-type", "Content-Type", "X-Missing", "x-multi", "set-cookie", "x rate limit", "X-Rate-Limit"}
 
 // how a response body may begin: byte order marks of every flavour (a UTF-8 one in front of a document is common with
@@ -1287,6 +1324,25 @@ func (c13) Gen(r *rand.Rand, tier string, i int) any {
 				h.Values = append(h.Values, Bs(fmt.Sprintf("v%d-%d", r.Intn(100), j)))
 			}
 			in.Headers = append(in.Headers, h)
+		}
+	}
+	in.Debug = r.Intn(4) == 0
+	if r.Intn(3) == 0 { // credential-bearing headers, one to three lines each; the reader asks for them under some spelling
+		for j := 1 + r.Intn(3); j > 0; j-- {
+			k := c13SensitiveKeys[r.Intn(len(c13SensitiveKeys))]
+			dup := false
+			for _, h := range in.Headers {
+				dup = dup || string(h.Key) == k
+			}
+			if dup {
+				continue
+			}
+			h := c13Header{Key: Bs(k)}
+			for n := 1 + r.Intn(3); n > 0; n-- {
+				h.Values = append(h.Values, Bs(c13SensitiveVals[r.Intn(len(c13SensitiveVals))]))
+			}
+			in.Headers = append(in.Headers, h)
+			in.Queries = append(in.Queries, Bs([]string{k, strings.ToLower(k), strings.ToUpper(k)}[r.Intn(3)]))
 		}
 	}
 	r.Shuffle(len(in.Headers), func(a, b int) { in.Headers[a], in.Headers[b] = in.Headers[b], in.Headers[a] })
@@ -1378,11 +1434,31 @@ func c13GenSeq(r *rand.Rand) c13In {
 		}
 		in.Calls = append(in.Calls, c)
 	}
+	in.Debug = r.Intn(4) == 0
 	return in
 }
 
 func (c13) Enumerate(tier string) []any {
 	var out []any
+	// every credential-bearing header (one line / two lines) x Debug option off / on x a delivered and a refused status x content
+	// type json / octet-stream (the debug dump leaves the body of the latter out)
+	for _, k := range c13SensitiveKeys {
+		for n := 1; n <= 2; n++ {
+			for _, dbg := range []bool{false, true} {
+				for i, code := range []int{200, 401} {
+					h := c13Header{Key: Bs(k)}
+					for j := 0; j < n; j++ {
+						h.Values = append(h.Values, Bs(c13SensitiveVals[(j*5+len(k))%len(c13SensitiveVals)]))
+					}
+					ct := []string{"application/json", "application/octet-stream"}[(i+n)%2]
+					out = append(out, c13In{Kind: "resp", Default: "application/json", Registry: []Bs{"application/json", "*/*"}, Code: code,
+						Status: Bs(fmt.Sprintf("%d %s", code, http.StatusText(code))), Body: "{\"a\":1}", Debug: dbg,
+						Headers: []c13Header{{Key: "Content-Type", Values: []Bs{Bs(ct)}}, h, {Key: "X-Request-Id", Values: []Bs{"r1"}}},
+						Queries: []Bs{Bs(k), Bs(strings.ToLower(k)), "X-Request-Id", "content-type"}})
+				}
+			}
+		}
+	}
 	// every content-type spelling x registries {none, exact only, star only, both, other only}
 	regs := [][]Bs{nil, {"application/json", "text/plain"}, {"*/*"}, {"application/json", "text/plain", "*/*"}, {"application/xml"},
 		{"application/json", "application/xml", "text/plain", "text/html", "application/*", "text/*", "json", "application"},
